@@ -1,5 +1,6 @@
 import Proofs.C14.Desc3
 import Proofs.C14.Bad
+import Proofs.C14.Get
 /-! C14 proofs: zone tiling, the sentinel witness, non-vacuity data. (Parts: `Proofs/C14/*.lean`.) -/
 namespace PfC14
 open C14 Ring
@@ -12,12 +13,12 @@ def flagsFor (zt : List (Nat × String)) (o : String) : List (Nat × Bool) := zt
 theorem flagsFor_fst (zt : List (Nat × String)) (o : String) : (flagsFor zt o).map (·.1) = zt.map (·.1) := by
   simp [flagsFor, Function.comp_def]
 
-/-- fixed walk: the ranges of the instances of one zone tile the key space. -/
-theorem zone_tiling_F (zt : List (Nat × String)) (hs : SAsc (zt.map (·.1))) (hb : ∀ p ∈ zt, p.1 ≤ maxU32)
+/-- the ranges of the instances of one zone tile the key space. -/
+theorem zone_tiling_cur (zt : List (Nat × String)) (hs : SAsc (zt.map (·.1))) (hb : ∀ p ∈ zt, p.1 ≤ maxU32)
     (hne : zt ≠ []) (k : Nat) (hk : k ≤ maxU32) :
-    ∃ o, includesKey (instRangesOfF (flagsFor zt o)) k = true ∧
-      ∀ o', includesKey (instRangesOfF (flagsFor zt o')) k = true → o' = o := by
-  have hex := fun o => instF_exact (flagsFor zt o) (by rw [flagsFor_fst]; exact hs)
+    ∃ o, includesKey (instRangesOf (flagsFor zt o)) k = true ∧
+      ∀ o', includesKey (instRangesOf (flagsFor zt o')) k = true → o' = o := by
+  have hex := fun o => inst_exact (flagsFor zt o) (by rw [flagsFor_fst]; exact hs)
     (by intro p hp; obtain ⟨q, hq, rfl⟩ := List.mem_map.mp hp; exact hb q hq) k hk
   obtain ⟨t, hsucc⟩ := isSucc_exists (zt.map (·.1)) hs (by simpa using hne) k
   obtain ⟨⟨t', o⟩, hm, ht⟩ := List.mem_map.mp hsucc.1
@@ -34,13 +35,13 @@ theorem zone_tiling_F (zt : List (Nat × String)) (hs : SAsc (zt.map (·.1))) (h
   have := sasc_fst_inj zt hs (t3, o3) hm3 (t3, o) hm rfl
   simpa using this
 
-/-- current code: the same, provided no instance of the zone has a `bad` layout. -/
-theorem zone_tiling_of_not_bad (zt : List (Nat × String)) (hs : SAsc (zt.map (·.1))) (hb : ∀ p ∈ zt, p.1 ≤ maxU32)
+/-- pre-fix walk: the same, provided no instance of the zone has a `bad` layout. -/
+theorem zone_tilingOld_of_not_bad (zt : List (Nat × String)) (hs : SAsc (zt.map (·.1))) (hb : ∀ p ∈ zt, p.1 ≤ maxU32)
     (hne : zt ≠ []) (hbad : ∀ o, bad (flagsFor zt o) = false) (k : Nat) (hk : k ≤ maxU32) :
-    ∃ o, includesKey (instRangesOf (flagsFor zt o)) k = true ∧
-      ∀ o', includesKey (instRangesOf (flagsFor zt o')) k = true → o' = o := by
-  have heq := fun o => instRangesOf_eq_F (flagsFor zt o) (by rw [flagsFor_fst]; exact hs) (hbad o)
-  obtain ⟨o, h1, h2⟩ := zone_tiling_F zt hs hb hne k hk
+    ∃ o, includesKey (instRangesOfOld (flagsFor zt o)) k = true ∧
+      ∀ o', includesKey (instRangesOfOld (flagsFor zt o')) k = true → o' = o := by
+  have heq := fun o => instRangesOfOld_eq (flagsFor zt o) (by rw [flagsFor_fst]; exact hs) (hbad o)
+  obtain ⟨o, h1, h2⟩ := zone_tiling_cur zt hs hb hne k hk
   refine ⟨o, by rw [heq]; exact h1, ?_⟩
   intro o' ho'; rw [heq] at ho'; exact h2 o' ho'
 
@@ -62,17 +63,24 @@ theorem witness_zoneTokens : zoneTokens dWitness "z" = [(0, instB), (1, instA), 
 theorem witness_lookup : lookupInZone dWitness "z" 0 = some "A" := by
   rw [lookupInZone, witness_tokenInsts]; decide
 
-theorem witness_ranges : rangesForInstance dWitness true 1 "A" = .ok [] := by
+theorem witness_ranges : rangesForInstanceOld dWitness true 1 "A" = .ok [] := by
   have h1 : dWitness.get? "A" = some instA := by decide
   have h2 : (zonesOf dWitness).length = 1 := by decide
   have hz : instA.zone = "z" := rfl
-  simp only [rangesForInstance, rangesForInstanceWith, h1, h2, hz, witness_zoneTokens]
+  simp only [rangesForInstanceOld, rangesForInstanceWith, h1, h2, hz, witness_zoneTokens]
   decide
 
-theorem witness_ranges_B : rangesForInstance dWitness true 1 "B" = .ok [1, 4294967295] := by
+theorem witness_ranges_B : rangesForInstanceOld dWitness true 1 "B" = .ok [1, 4294967295] := by
   have h1 : dWitness.get? "B" = some instB := by decide
   have h2 : (zonesOf dWitness).length = 1 := by decide
   have hz : instB.zone = "z" := rfl
+  simp only [rangesForInstanceOld, rangesForInstanceWith, h1, h2, hz, witness_zoneTokens]
+  decide
+
+theorem witness_ranges_new : rangesForInstance dWitness true 1 "A" = .ok [0, 0] := by
+  have h1 : dWitness.get? "A" = some instA := by decide
+  have h2 : (zonesOf dWitness).length = 1 := by decide
+  have hz : instA.zone = "z" := rfl
   simp only [rangesForInstance, rangesForInstanceWith, h1, h2, hz, witness_zoneTokens]
   decide
 
